@@ -10,8 +10,10 @@ import (
 	"encoding/json"
 	"fmt"
 	"math/rand"
+	"runtime"
 	"strings"
 	"sync"
+	"sync/atomic"
 
 	"github.com/whoisnian/glb/logger"
 
@@ -53,6 +55,9 @@ type ConcCase struct {
 	G, PerG   int
 	ParentPad int
 	Seed      int64
+	// Rounds > 0: that many fresh non-root parents; in every round all G goroutines derive their
+	// first child from the round's parent at the same time (barrier), then log through it.
+	Rounds int
 }
 
 func leaf(k string, v *attrgen.Val) attrgen.Node { return attrgen.Node{Key: []byte(k), Val: v} }
@@ -177,7 +182,86 @@ func runEquiv(cs Case, st *stats) (key, expected, observed string) {
 
 // runConc: G goroutines share one non-root parent; each derives children from it and logs
 // through them while the others do the same.
+// runRounds: see ConcCase.Rounds.
+func runRounds(cs Case, st *stats) (key, expected, observed string) {
+	cc := cs.Conc
+	w := recw.New(cc.G*cc.Rounds+16, 0)
+	root := logger.New(logrun.NewHandler(cs.Kind, w, 0, cs.AddSource))
+	chains := make([][]attrgen.ChainOp, cc.Rounds)
+	parents := make([]*logger.Logger, cc.Rounds)
+	for k := range parents {
+		pad := (cc.ParentPad + k*7) % 120
+		chains[k] = []attrgen.ChainOp{{Attrs: []attrgen.Node{leaf("p", sval(strings.Repeat("P", pad))), leaf("id", ival(int64(k)))}}}
+		if k%3 == 1 {
+			chains[k] = append(chains[k], attrgen.ChainOp{IsGrp: true, Group: []byte("pg")}, attrgen.ChainOp{Attrs: []attrgen.Node{leaf("q", ival(1))}})
+		}
+		parents[k] = attrgen.Derive(root, chains[k])
+	}
+	child := func(g, k int) []attrgen.ChainOp {
+		if (g+k)%4 == 3 {
+			return []attrgen.ChainOp{{IsGrp: true, Group: []byte(fmt.Sprintf("y%d", g))}}
+		}
+		return []attrgen.ChainOp{{Attrs: []attrgen.Node{leaf("c", sval(fmt.Sprintf("g%dk%d", g, k)))}}}
+	}
+	var arrived, gen atomic.Int32
+	var wg sync.WaitGroup
+	panics := make([]any, cc.G)
+	for g := 0; g < cc.G; g++ {
+		wg.Add(1)
+		go func(g int) {
+			defer wg.Done()
+			defer func() { panics[g] = recover() }()
+			for k := 0; k < cc.Rounds; k++ {
+				if arrived.Add(1) == int32(cc.G) {
+					arrived.Store(0)
+					gen.Store(int32(k + 1))
+				} else {
+					for gen.Load() == int32(k) {
+						runtime.Gosched()
+					}
+				}
+				l := attrgen.Derive(parents[k], child(g, k))
+				logrun.Emit(l, 1, fmt.Sprintf("r%d-%d", g, k), nil)
+			}
+		}(g)
+	}
+	wg.Wait()
+	for g, pv := range panics {
+		if pv != nil {
+			return "conc-panic:" + cs.Kind, "no panic", fmt.Sprintf("goroutine %d: %v", g, pv)
+		}
+	}
+	want := map[string]int{}
+	for g := 0; g < cc.G; g++ {
+		for k := 0; k < cc.Rounds; k++ {
+			line, err := logrun.AloneLine(cs.Kind, 0, cs.AddSource, append(append([]attrgen.ChainOp(nil), chains[k]...), child(g, k)...), 1, fmt.Sprintf("r%d-%d", g, k), nil)
+			if err != nil || line == "" {
+				return "alone:" + cs.Kind, "alone replay writes one line", fmt.Sprint(err)
+			}
+			want[line]++
+			st.concRecords++
+		}
+	}
+	for i, pl := range w.Payloads() {
+		s, err := logrun.StripTime(cs.Kind, pl)
+		if err != nil || want[string(s)] == 0 {
+			return "conc-first-derivation:" + cs.Kind, "every line equals the alone replay of its logger's own chain (first children derived simultaneously from a fresh parent)", fmt.Sprintf("write #%d: %q (%v)", i, pl, err)
+		}
+		want[string(s)]--
+	}
+	for line, n := range want {
+		if n > 0 {
+			return "conc-missing:" + cs.Kind, "every record written once", fmt.Sprintf("%d× missing %q", n, line)
+		}
+	}
+	st.switches += int64(cc.Rounds)
+	return "", "", ""
+}
+
 func runConc(cs Case, st *stats) (key, expected, observed string) {
+	if cs.Conc.Rounds > 0 {
+		return runRounds(cs, st)
+	}
 	cc := cs.Conc
 	w := recw.New(cc.G*cc.PerG*2+16, 1)
 	root := logger.New(logrun.NewHandler(cs.Kind, w, 0, cs.AddSource))
@@ -518,6 +602,9 @@ func (mn mon) Run(sh drv.Shard, c *drv.Ctx) {
 		r := rand.New(rand.NewSource(sh.Seed*7 + int64(a.Part)))
 		for i := 0; i < a.Count; i++ {
 			cs := Case{Kind: logrun.Kinds[i%3], Conc: &ConcCase{G: []int{2, 4, 8}[r.Intn(3)], PerG: 150, ParentPad: []int{3, 20, 27, 60, 100, 500}[r.Intn(6)], Seed: r.Int63()}}
+			if i%2 == 1 {
+				cs.Conc.Rounds = 400
+			}
 			if c.NumSamples() < 1 {
 				c.Sample(cs)
 			}
